@@ -272,6 +272,10 @@ class gclmulchunker(ChunkerAdapter):
         chunker = _replicat_adapters._gclmulchunker(
             self.min_length, self.max_length, params
         )
+        # The native code scans whole groups of `alignment` bytes up to max_length.
+        # Unless the buffer is final, it must hold all of them, or the scan will
+        # run past the end of the buffer when max_length is not a multiple
+        aligned_max_length = -(-self.max_length // self.alignment) * self.alignment
         buffer = bytearray()
         it = iter(chunk_iterator)
         chunk = next(it, None)
@@ -281,6 +285,8 @@ class gclmulchunker(ChunkerAdapter):
             next_chunk = next(it, None)
 
             while True:
+                if next_chunk is not None and len(buffer) < aligned_max_length:
+                    break
                 pos = chunker.next_cut(buffer, bool(next_chunk is None))
                 if not pos:
                     break
